@@ -262,13 +262,26 @@ def replay(point, nf, g, order, scheme, thr):
         theory_card: object
         operator_card: object
 
+    # non-intrusive spy: records that the real Mellin integration was entered, then delegates to it
+    import eko.evolution_operator as evop
+
+    reached = []
+    real_integrate = evop.Operator.integrate
+
+    def spy(self):
+        reached.append(1)
+        return real_integrate(self)
+
+    evop.Operator.integrate = spy
     try:
         res = parts.evolve(FakeEKO(tc, oc), Evolution.from_atlas(Segment(mu0**2, mu0**2, nf), cliff=thr))
     except Exception as e:  # noqa
         import traceback
 
-        return {"detail": "runner.parts.evolve for target == origin (nf=%d, order=%r, scheme=%s, xif2=%r, cliff=%s) raises %s: %s\n%s"
-                          % (nf, order, scheme, xif2, thr, type(e).__name__, e, traceback.format_exc()[-600:])}
+        return {"detail": "runner.parts.evolve for target == origin (nf=%d, order=%r, scheme=%s, xif2=%r, cliff=%s) %sraises %s: %s\n%s"
+                          % (nf, order, scheme, xif2, thr, "does not take the unity shortcut (Operator.integrate entered) and " if reached else "", type(e).__name__, e, traceback.format_exc()[-400:])}
+    finally:
+        evop.Operator.integrate = real_integrate
     T = np.asarray(res.operator, dtype=float)
     qed = order[1] > 0
     want = np.zeros_like(T)
@@ -277,10 +290,14 @@ def replay(point, nf, g, order, scheme, thr):
             continue
         for a in range(n):
             want[o, a, o, a] = 1.0
-    if (not np.all(np.isfinite(T))) or np.abs(T - want).max() > 1e-9:
+    dev = float(np.abs(T - want).max()) if np.all(np.isfinite(T)) else float("inf")
+    # the shortcut path itself only rounds at the 1e-16 level (normalised weights); a result that went through the Mellin
+    # integration is the identity only up to quadrature accuracy, i.e. the weights are not "exactly one"
+    if dev > 1e-9 or (reached and dev > 1e-15):
         idx = np.unravel_index(np.argmax(np.abs(T - want)), T.shape)
-        return {"detail": "runner.parts.evolve for target == origin (mu0^2=%r, nf=%d, order=%r, scheme=%s, xif2=%r, cliff=%s, %d-point grid): operator[%s,%d,%s,%d] = %r, identity has %r"
-                          % (mu0**2, nf, order, scheme, xif2, thr, n, M.NAMES[idx[0]], idx[1], M.NAMES[idx[2]], idx[3], float(T[idx]), float(want[idx]))}
+        return {"detail": "runner.parts.evolve for target == origin (mu0^2=%r, nf=%d, order=%r, scheme=%s, xif2=%r, cliff=%s, %d-point grid): %soperator[%s,%d,%s,%d] = %r, identity has %r (max deviation %.3e)"
+                          % (mu0**2, nf, order, scheme, xif2, thr, n, "the unity shortcut was NOT taken (Operator.integrate entered); " if reached else "",
+                             M.NAMES[idx[0]], idx[1], M.NAMES[idx[2]], idx[3], float(T[idx]), float(want[idx]), dev)}
     return None
 
 
